@@ -141,6 +141,11 @@ func (fx *FuncCtx) specialCall(st *State, callee *ssa.Function, args []Val, rt t
 	case "(*sync.Mutex).Unlock", "(*sync.RWMutex).Unlock", "(*sync.RWMutex).RUnlock":
 		fx.unlock(st, args[0], pos)
 		return Val{}, true
+	case "(*sync.WaitGroup).Wait":
+		if len(st.spawned) > 0 {
+			fx.joinSpawned(st, pos)
+			return Val{}, true
+		}
 	case "(*sync.Once).Do":
 		// f runs at most once: either this call runs it (contract of the closure applied) or an earlier one did
 		f := args[1]
@@ -717,6 +722,9 @@ func (fx *FuncCtx) applyContract(st *State, callee *ssa.Function, fc *FuncContra
 		}
 	}
 	for i, rq := range fc.Requires {
+		if fx.skipPre {
+			break // joined goroutine: its precondition was checked when it was spawned
+		}
 		label := rq.Name
 		if label == "" {
 			label = fmt.Sprintf("#%d", i+1)
